@@ -51,7 +51,7 @@ func isSQLWrite(f *types.Func) bool {
 }
 
 func checkC09(r *core.Run) {
-	r.Explain = "Decided statically: (C09.all) every UndoExecutor.ExecuteOn the holder can return reaches its first compensating statement (Prepare/Exec on the connection) only after dataValidationAndGoOn answered (true, nil), and returns without writing when it answers false; (C09.threeway) inside the validation (true,nil) is returned only when validation is disabled or equals(after, current); equals(before, after) or equals(before, current) yield (false,nil); everything else is a non-nil error; errors of IsRecordsEquals / the current-row query propagate; (C09.status) with C01.status that error reaches BranchRollback as a failure status and the undo transaction is rolled back (C01.tx), so neither rows nor undo log are touched. (C09.lock) the current rows are read with SELECT ... FOR UPDATE, so no foreign write can land between the comparison and the compensating statement; (C09.equal) structural part of the equality: in the records/rows comparison a field or nested comparison that answers 'not equal' makes the whole answer false, and the value normaliser of the field equality (the function answering (float64, true)) accepts numeric reflect kinds only, so strings, byte slices and times are compared exactly. NOT decided: the remaining value semantics of the equality (floating-point comparison of 64-bit integers beyond 2^53, see C08's BIGINT finding) and the histories."
+	r.Explain = "Decided statically: (C09.all) every UndoExecutor.ExecuteOn the holder can return reaches its first compensating statement (Prepare/Exec on the connection) only after dataValidationAndGoOn answered (true, nil), and returns without writing when it answers false; (C09.threeway) inside the validation (true,nil) is returned only when validation is disabled or equals(after, current); equals(before, after) or equals(before, current) yield (false,nil); everything else is a non-nil error; errors of IsRecordsEquals / the current-row query propagate; (C09.status) with C01.status that error reaches BranchRollback as a failure status and the undo transaction is rolled back (C01.tx), so neither rows nor undo log are touched. (C09.lock) the current rows are read with SELECT ... FOR UPDATE, so no foreign write can land between the comparison and the compensating statement; (C09.equal) structural part of the equality: in the records/rows comparison a field or nested comparison that answers 'not equal' makes the whole answer false, and the value normaliser of the field equality (the function answering (float64, true)) accepts numeric reflect kinds only, so strings, byte slices and times are compared exactly. (C09.equal, also) in a comparing loop nothing before the nested comparison moves on to the next element or leaves the loop; NOT decided: the remaining value semantics of the equality (floating-point comparison of 64-bit integers beyond 2^53, see C08's BIGINT finding) and the histories."
 	r.Trusted = []string{"go/types, go/cfg", "database/sql"}
 	w := r.W
 	u := resolveUndoWorld(r, "C09.anchor")
@@ -254,7 +254,7 @@ func c01StatusAs(r *core.Run, u *undoWorld, rule string) {
 }
 
 func checkC10(r *core.Run) {
-	r.Explain = "Decided statically: (C10.status) every delivery of a branch rollback answers 'rollbacked' only on the nil-error edge of its own undo run (no answer remembered from an earlier delivery); (C10.tx) the undo routine runs in one database/sql transaction that is committed on every nil return and rolled back on every error return (shared with C01.tx), so a failed attempt leaves no partial compensation; (C10.marker) when no undo-log record exists the routine inserts a record whose status is the global-finished constant before Commit, and that constant is not one for which CanUndo answers true, so a repeated delivery returns without replaying and a late phase one cannot insert its undo log; (C10.late) the late flush inserts with the same statement and the same (branch_id, xid) argument positions as the marker, and its error reaches the AT commit's failure path (C02.fail). NOT decided: database state after retries at each statement index; the unique index itself (schema)."
+	r.Explain = "Decided statically: (C10.status) every delivery of a branch rollback answers 'rollbacked' only on the nil-error edge of its own undo run (no answer remembered from an earlier delivery); (C10.tx) the undo routine runs in one database/sql transaction that is committed on every nil return and rolled back on every error return (shared with C01.tx), so a failed attempt leaves no partial compensation; (C10.marker) when no undo-log record exists the routine inserts a record whose status is the global-finished constant before Commit, and that constant is not one for which CanUndo answers true, so a repeated delivery returns without replaying and a late phase one cannot insert its undo log; (C10.late) the late flush inserts with the same statement and the same (branch_id, xid) argument positions as the marker, and its error reaches the AT commit's failure path (C02.fail). (C10.late, also) whoever inserts into undo_log through the insert functions returns every failure of the insert as an error, recognised or not. NOT decided: database state after retries at each statement index; the unique index itself (schema)."
 	r.Trusted = []string{"go/types, go/cfg", "database/sql", "unique (xid, branch_id) index on undo_log (schema)"}
 	w := r.W
 	u := resolveUndoWorld(r, "C10.anchor")
